@@ -330,12 +330,15 @@ class PedReader:
         return iter(self.trios)
 
     def samples(self) -> Sequence[str]:
-        """Return a list of all mentioned individuals"""
-        samples = set()
+        """
+        Return a list of all mentioned individuals, each once, in the order in which the
+        PED file mentions them (individual, father, mother)
+        """
+        samples = dict()  # used as an ordered set: the order must not depend on the hash seed
         for trio in self.trios:
             if trio.child is None or trio.mother is None or trio.father is None:
                 continue
-            samples.add(trio.father)
-            samples.add(trio.mother)
-            samples.add(trio.child)
+            samples[trio.child] = None
+            samples[trio.father] = None
+            samples[trio.mother] = None
         return list(samples)
